@@ -107,6 +107,8 @@ func main() {
 				}
 				// instrumented rounds: faults / holds on the bootstrap transaction and the writes after it
 				switch g % 10 {
+				case 0:
+					p.TxnFault = "hold-after-quiet"
 				case 1:
 					p.TxnFault = "hold-after"
 				case 2:
